@@ -341,6 +341,18 @@ impl<'a, F: IVP> SolOut for DefaultSolOut<'a, F> {
                                     k += 1;
                                 }
                                 self.next_idx = k;
+                            } else if let (Some(h0), false) = (self.first_step, self.first_output_done) {
+                                // Likewise the pending first_step output, when this step reaches
+                                // it before the event
+                                let direction = if forward { 1.0 } else { -1.0 };
+                                let target = self.x0 + direction * h0.abs();
+                                if direction * (event_t - target) > 0.0 {
+                                    let mut yi = vec![0.0; y.len()];
+                                    interpolant.unwrap().interpolate(target, &mut yi);
+                                    self.t.push(target);
+                                    self.y.push(yi);
+                                    self.first_output_done = true;
+                                }
                             }
 
                             // A requested time emitted through the 1e-12 matching slack of an
